@@ -176,6 +176,8 @@ def kind_of(v):
         return KBool
     if isinstance(v, SStr):
         return KStr
+    if isinstance(v, SBV):
+        return KBV
     if isinstance(v, (SSeq, SSet, SRef)):
         return v.kind
     if isinstance(v, bool):
@@ -598,6 +600,59 @@ class MutSet:
 
     def __repr__(self):
         return f"<MutSet {None if self._val is None else self._val.t}>"
+
+
+# ------------------------------------------------------------ bit vectors --
+BVW = 32
+
+
+def BV(v):
+    if isinstance(v, SBV):
+        return v.t
+    if isinstance(v, bool):
+        return z3.BitVecVal(int(v), BVW)
+    if isinstance(v, int):
+        return z3.BitVecVal(v & ((1 << BVW) - 1), BVW)
+    raise OutOfSubset(f"not a bit-vector operand: {v!r}")
+
+
+class SBV(Sym):
+    """A non-negative python int < 2**31 used with bit operations (file modes):
+    32-bit vector; `~` and `&` agree with python's on that range."""
+
+    def __init__(self, t):
+        self.t = t
+
+    def __and__(self, o):
+        return SBV(self.t & BV(o))
+
+    __rand__ = __and__
+
+    def __or__(self, o):
+        return SBV(self.t | BV(o))
+
+    __ror__ = __or__
+
+    def __xor__(self, o):
+        return SBV(self.t ^ BV(o))
+
+    __rxor__ = __xor__
+
+    def __invert__(self):
+        return SBV(~self.t)
+
+    def __eq__(self, o):
+        try:
+            return SBool(self.t == BV(o))
+        except OutOfSubset:
+            return False
+
+    def __ne__(self, o):
+        r = self.__eq__(o)
+        return True if r is False else Not(r)
+
+
+KBV = Kind("mode", z3.BitVecSort(BVW), lambda t: SBV(t), lambda v: BV(v) if isinstance(v, (SBV, int)) and not isinstance(v, bool) else None)
 
 
 # ------------------------------------------------------------ opaque refs --
